@@ -164,8 +164,33 @@ struct Out<W: Write> {
 }
 fn hash(s: &str) -> u64 { let mut h: u64 = 0xcbf29ce484222325; for b in s.bytes() { h ^= b as u64; h = h.wrapping_mul(0x100000001b3); } h }
 
+/// a repetition count above 2^17 that the reader would ACCEPT (<= u32::MAX): unrolling it is astronomically large, which
+/// the property leaves out ("repetition counts of bounded size"); mutation and damage can produce such counts by accident
+fn has_huge_count(t: &str) -> bool {
+    let b = t.as_bytes();
+    let mut i = 0;
+    while i < b.len() {
+        if b[i].is_ascii_digit() {
+            let s = i;
+            while i < b.len() && b[i].is_ascii_digit() { i += 1; }
+            let digits = t[s..i].trim_start_matches('0');
+            let mut j = s;
+            while j > 0 && (b[j - 1] == b' ' || b[j - 1] == b'\t' || b[j - 1] == b'\n' || b[j - 1] == b'\r') { j -= 1; }
+            let after_brace = j > 0 && (b[j - 1] == b'{' || b[j - 1] == b',');
+            if after_brace && digits.len() >= 6 && digits.len() <= 10 && digits.parse::<u64>().map(|v| v > 131072 && v <= u32::MAX as u64).unwrap_or(false) { return true; }
+        } else { i += 1; }
+    }
+    false
+}
+
 impl<W: Write> Out<W> {
-    fn run(&mut self, kind: &str, text: &str) -> String { self.run_on(kind, text, false) }
+    fn run(&mut self, kind: &str, text: &str) -> String {
+        if matches!(kind, "mut" | "dmg" | "gend" | "rnd" | "pre" | "gen") && has_huge_count(text) {
+            *self.counts.entry("skipped_huge_count".to_string()).or_insert(0) += 1;
+            return "skipped".to_string();
+        }
+        self.run_on(kind, text, false)
+    }
     /// returns the class
     fn run_on(&mut self, kind: &str, text: &str, small_stack: bool) -> String {
         let slot = if small_stack { &mut self.small } else { &mut self.worker };
@@ -528,6 +553,9 @@ const WITNESS_UNROLL: &str = "a = { \"x\"{4294967294,} }";
 /// not C09 defects: two repairs made for C06 change functions that the C09 model covers; the model follows the tree
 /// (accepted = as shipped, rejected = repaired; the second one only exists with grammar-extras)
 const STATE_PROBES: [(&str, &str); 2] = [("fix_lr", "a = { a? ~ \"x\" }"), ("fix_tag", "a = { #t = (\"\"*) ~ \"x\" }")];
+/// the C07 repair (the ^".." literal is read from the inner string pair): before it, a comment with a backslash between
+/// `^` and the literal made unescape fail on a VALID grammar (same panic site as class C09-invalid-escape)
+const INSENS_PROBE: &str = "a = { ^/*\\*/\"a\" }";
 
 fn main() {
     let mode = arg(1);
@@ -553,6 +581,7 @@ fn main() {
             out.hard_ms = HARD_MS;
             kv.push(format!("fix_unroll={}", if c == "PANIC" { 0 } else { 1 }));
             for (k, t) in STATE_PROBES { let c = out.run(&format!("probe-{}", k), t); kv.push(format!("{}={}", k, if c == "rules" { 0 } else { 1 })); }
+            let c = out.run("probe-fix_insens", INSENS_PROBE); kv.push(format!("fix_insens={}", if c == "rules" { 1 } else { 0 }));
             writeln!(out.w, "#PROBE\t{}", kv.join("\t")).unwrap();
         }
         "one" => { let t = unesc(&arg(2)); out.run("one", &t); }
